@@ -13,18 +13,62 @@ class C15(scen.WorldProp):
                 "Wheatley.C15.pull_off_only_polls",
                 "Wheatley.C15.only_leader_anchors",
                 "Wheatley.C15.leader_anchors",
-                "Wheatley.C15.first_row_from_leader"]
+                "Wheatley.C15.first_row_from_leader",
+                "Wheatley.C15.look_to_with_hold_up",
+                "Wheatley.C15.wait_cancels_hold_up",
+                "Wheatley.C15.first_strike_despite_hold_up"]
     level_text = ("theorems (any ordered field): initialise_line anchors the line at Look To + 3 s when Wheatley leads "
                   "and at the 'not yet' sentinel when a human leads; with the sentinel a user-controlled turn is the "
                   "pull-off loop, which cannot end before the leader's strike re-anchors the line at that strike's "
-                  "time; the leader's own strike is never re-weighted. correspondence: timed sessions, every owner of "
+                  "time; the leader's own strike is never re-weighted; for every hold-up accumulated by the waiting rhythm in "
+                  "earlier touches the first strike's wait still ends at Look To + 3 s of the real clock. correspondence: timed sessions, every owner of "
                   "the leading bell, default and custom start rows, pull-off delays 0..120 s (also < 3 s), other "
-                  "humans early or not, both modes; oracle: first strike at T+3 / nothing before the leader / row 0 "
+                  "humans early or not, both modes, and later touches of a session after humans held Wheatley up; oracle: first strike at T+3 / nothing before the leader / row 0 "
                   "placed from the leader's strike. non-trivial = a human leads")
+
+    def later_touch(self, rng):
+        """A touch that follows an earlier one in the same session in which humans held Wheatley up
+        (the waiting rhythm has accumulated a hold-up), with Wheatley leading the later touch."""
+        N = rng.choice([4, 6, 6, 8])
+        opening = list(range(1, N + 1))
+        humans = sorted(rng.sample(opening[1:], rng.randint(1, N - 2)))
+        ps = rng.choice([60, 120, 178])
+        I = scen.interval(ps, N)
+        row_t = I * (N + 0.5)
+        touches = rng.choice([2, 2, 3])
+        t = 1000.3 + rng.random()
+        events = []
+        look_tos = []
+        for k in range(touches):
+            look_tos.append(t)
+            events.append([t - 0.2, "msg", {"m": "global_state", "state": [True] * N}])   # bells set at hand
+            events.append(call(t, LOOK_TO))
+            if k < touches - 1:
+                stand = t + 3 + rng.uniform(0.5, 3.5) * row_t
+                events.append(call(stand, scen.STAND))
+                # (the hold-ups stretch the touch: leave room for them)
+                t = stand + 3 * row_t + 12 * len(humans) * 0.8 + 2 + rng.random()
+        end = look_tos[-1] + 3 + I * (N + 2) + 1
+        sc = {"start": 1000.0, "end": end, "tower_size": N, "events": events,
+              "on_join": scen.humans_on_join(humans),
+              "bot": scen.bot_cfg({"type": "plainhunt", "stage": N, "start_row": None}, up_down_in=rng.random() < 0.5),
+              "rhythm": scen.rhythm_cfg("wait", peal_speed=ps, inertia=rng.choice([0.0, 0.5, 1.0]))}
+        return {"k": "world", "scenario": sc, "t0": look_tos[-1], "t_lead": None, "opening": opening,
+                "humans": humans, "I": I, "early_others": False, "later": True,
+                "lags": [rng.choice([0.05, 0.2, 0.4, 0.8]) for _ in range(5)], "look_tos": look_tos}
+
+    def agents(self, req):
+        if not req.get("later"):
+            return None
+        lags = req["lags"]
+        return lambda s: [scen.Follower(s, req["humans"], lambda r, p: lags[(r + p) % len(lags)])]
 
     def cases(self, rng, tier):
         n = 60 if tier == "quick" else 500
         for i in range(n):
+            if i % 4 == 3:
+                yield self.later_touch(rng)
+                continue
             N = rng.choice([4, 6, 6, 8, 12])
             spec = {"type": "plainhunt", "stage": N, "start_row": None}
             if rng.random() < 0.4:
@@ -66,7 +110,12 @@ class C15(scen.WorldProp):
                    "opening": opening, "humans": humans, "I": I, "early_others": early_others}
 
     def nontrivial(self, req, reply):
+        if req.get("later"):
+            return scen.b2f(reply.get("delay", 0)) > 0.01 if "delay" in reply else True
         return req["t_lead"] is not None and len(scen.rings(reply)) >= 1
+
+    def tag(self, req, reply):
+        return ("later-touch:" if req.get("later") else "") + super().tag(req, reply)
 
     def oracle(self, req, reply):
         sc = req["scenario"]
@@ -78,6 +127,18 @@ class C15(scen.WorldProp):
         opening = req["opening"]
         humans = req["humans"]
         if req["t_lead"] is None:
+            if req.get("later"):
+                # every touch of the session: the first strike after each Look To
+                for k, Tk in enumerate(req["look_tos"]):
+                    nxt = req["look_tos"][k + 1] if k + 1 < len(req["look_tos"]) else float("inf")
+                    rk = [x for x in rings if Tk <= x[0] < nxt]
+                    if not rk:
+                        return f"Wheatley leads touch {k + 1} but rang nothing"
+                    t, b, h = rk[0]
+                    if b != opening[0] or abs(t - (Tk + 3)) > 1e-6:
+                        return (f"touch {k + 1} of the session: Wheatley leads, first strike bell {b} at "
+                                f"{t - Tk:.6f} s after Look To, expected bell {opening[0]} at 3 s")
+                return None
             if not rings:
                 return "Wheatley leads but rang nothing"
             t, b, h = rings[0]
